@@ -9,7 +9,9 @@ Ties (every run):
   `typename`, `header`, `type_signature`, prefix/postfix specifiers, `convert` …) against the Lean model, string
   by string, over type expressions (exhaustive to nesting 3 in the thorough tier) under random configurations;
 * file level: a skeleton of every generated C++/Java/ObjC/C++-CLI declaration (extracted by `ctok.py`) against
-  the model's `apiSkel`.
+  the model's `apiSkel`; the skeleton of a Java record carries the modifier words of every field, that of an error code its
+  fields with their modifier words, the constructor parameters and the accessors (name, type, modifiers) of the fields —
+  error codes have 0-4 parameters of primitive, optional, collection, enum, flags and record types.
 Specification on the implementation's observations: `printT (ref… t)` (the independently written reference
 mapping) against every real type string, `fidelity` (op `c02.spec`) on every extracted skeleton, and the style
 specification `convertSpec` (op `c02.convertSpec`: prefix, capital letters exactly at the starts of the `_`-separated
